@@ -96,6 +96,13 @@ def _native(fn, *args):
         return fn(*args)
 
 
+# engine cost only (see props/C38.py): keep the import-time heap out of the garbage collector's way
+import gc as _gc  # noqa: E402
+
+_gc.collect()
+_gc.freeze()
+
+
 def pin_code(code, n):
     """Concrete value of the symbolic int ``code`` in [0, n): binary search over solver-decided comparisons,
     one path per value."""
@@ -350,6 +357,10 @@ def _run_hist(kind, loaded, init, steps):
                 _fail(where + ":instance-value-differs-from-model", "instance %r model %r" % (have, cur))
         else:
             have = _members(kind, dict_[key]) if key in dict_ else ABSENT
+            if have is ABSENT and cur == []:
+                # an empty collection handed out for an attribute without value is only stored in the instance
+                # on its first mutation (CollectionAdapter._set_empty / _reset_empty): still "no value"
+                cur = ABSENT
             if (have is ABSENT) != (cur is ABSENT) or (have is not ABSENT and _msorted(have) != _msorted(cur)):
                 _fail(where + ":instance-value-differs-from-model", "instance %r model %r" % (have, cur))
         h = inspect(o).attrs[key].history
